@@ -383,6 +383,9 @@ class Check:
         self.violations = []      # (key, text, replay)
         self.known = []
 
+    def elapsed(self):
+        return time.time() - self.t0
+
     @property
     def thorough(self):
         return self.tier == 'thorough'
@@ -438,10 +441,11 @@ class Check:
               'violations': len(self.violations)}
         if self.known:
             ev['known_findings'] = [k for k, _ in self.known]
-        os.makedirs(os.path.join(VERIF, 'evidence'), exist_ok=True)
-        tmp = os.path.join(VERIF, 'evidence', self.pid + '.json.tmp')
+        evdir = os.environ.get('VERIF_EVIDENCE_DIR', os.path.join(VERIF, 'evidence'))
+        os.makedirs(evdir, exist_ok=True)
+        tmp = os.path.join(evdir, self.pid + '.json.tmp')
         json.dump(ev, open(tmp, 'w'), indent=1)
-        os.replace(tmp, os.path.join(VERIF, 'evidence', self.pid + '.json'))
+        os.replace(tmp, os.path.join(evdir, self.pid + '.json'))
         for k, t in self.known:
             print('KNOWN-FINDING: property=%s %s (%s)' % (self.pid, k, t))
         for k, t, p in self.violations:
